@@ -490,6 +490,8 @@ func (fp *factsProg) lintRoots(inst interface{}) (typeName string, roots []*ssa.
 	return rt.String(), roots, exec, nil
 }
 
+func computeFactsTicked() { tick() }
+
 func computeFacts() ([]LintFacts, map[string]interface{}, error) {
 	fp, err := loadProgram()
 	if err != nil {
